@@ -2029,6 +2029,285 @@ def rejected_call_checks(ctx: Ctx):
 
 
 # ---------------------------------------------------------------------------------------------
+# states as values: histories over EVERY state class (GeneralCircuitQuantumState, ComputationalBasisState, QuantumStateVector,
+# ParametricCircuitQuantumState, ParametricQuantumStateVector) built from EVERY circuit class - the qulacs pre-compiled ones
+# included, which are mutable QuantumCircuit subclasses whose freeze() returns self, so a state built from one holds a
+# mutable circuit - and derived through every entry point that is documented to return a new state and leave its
+# arguments alone: with_gates_applied (list / tuple / circuit), state_helper.apply_circuit, state_helper.quantum_state,
+# bind_parameters, with_primitive_circuit, re-wrapping state.circuit in a new state.  Derivations are repeated on the same
+# source.  After EVERY call every state and every circuit made so far must read exactly as its own history says.
+# ---------------------------------------------------------------------------------------------
+KEY_COMPILED = "compiled-circuit-freeze-returns-mutable-self"
+
+
+def state_derivation_histories(ctx: Ctx, n_hist: int):
+    import numpy as np
+
+    import quri_parts.circuit as qc
+    from quri_parts.core import state as st
+
+    try:
+        from quri_parts.qulacs.circuit.compiled_circuit import compile_circuit, compile_parametric_circuit
+    except Exception:  # noqa: BLE001 - renamed / removed: the histories run without the compiled kinds
+        compile_circuit = compile_parametric_circuit = None
+    apply_circuit, quantum_state = st.apply_circuit, st.quantum_state
+    rng = ctx.rng
+    compiled_known = any(k["property"] == "C20" and k["key"] == KEY_COMPILED for k in load_known_findings())
+
+    class RealErr(Exception):
+        pass
+
+    def real(f):
+        try:
+            return f()
+        except BaseException as e:  # noqa: BLE001 - the library's exceptions (Rust panics included) are outputs
+            if isinstance(e, (KeyboardInterrupt, SystemExit, MemoryError)):
+                raise
+            raise RealErr(f"{type(e).__name__}: {e}"[:160]) from None
+
+    def desc(g):
+        ps = tuple(getattr(g, "params", ()))
+        return [g.name.replace("Parametric", ""), list(g.control_indices) + list(g.target_indices),
+                "unbound" if g.name.startswith("Parametric") else [float(x) for x in ps]]
+
+    def circuit_of(o):
+        if isinstance(o, (st.ParametricCircuitQuantumState, st.ParametricQuantumStateVector)):
+            return o.parametric_circuit
+        if hasattr(o, "circuit") and not hasattr(o, "gates"):
+            return o.circuit
+        return o
+
+    def read(o):
+        try:
+            c = circuit_of(o)
+            d = {"n": c.qubit_count, "gates": [desc(g) for g in c.gates]}
+            if hasattr(o, "vector"):
+                d["vector"] = [complex(x) for x in np.asarray(o.vector).ravel()]
+            return d
+        except Exception as e:  # noqa: BLE001
+            return {"error": type(e).__name__}
+
+    def lit(n):
+        gs, ds = [], []
+        for _ in range(rng.randint(1, 2)):
+            # (no Pauli gates: ComputationalBasisState folds Pauli-only sequences into its bits / phase)
+            k = rng.choice(["H", "S", "RZ", "CNOT"] if n > 1 else ["H", "S", "RZ"])
+            if k == "CNOT":
+                a, b = rng.sample(range(n), 2)
+                gs.append(qc.CNOT(a, b)); ds.append(["CNOT", [a, b], []])
+            elif k == "RZ":
+                q, a = rng.randrange(n), float(rng.randint(-3, 3))
+                gs.append(qc.RZ(q, a)); ds.append(["RZ", [q], [a]])
+            else:
+                q = rng.randrange(n)
+                gs.append(getattr(qc, k)(q)); ds.append([k, [q], []])
+        return gs, ds
+
+    for _ in range(n_hist):
+        n = rng.randint(1, 3)
+        log: list[str] = []
+        objs: list = []   # circuits and states
+        exp: list = []    # expected {"n", "gates"[, "vector"]}
+        tag: list = []    # kind tags
+        fresh_mut: set = set()  # circuits made by a plain constructor: the only ones that are mutated later
+
+        def put(o, want, kind, name):
+            objs.append(o); exp.append(want); tag.append(kind)
+            log[-1] = f"v{len(objs) - 1} = " + log[-1]
+            return len(objs) - 1
+
+        def check_all(after: str) -> bool:
+            ctx.traces += 1
+            for i, o in enumerate(objs):
+                got = read(o)
+                if got != exp[i]:
+                    key = "state-derivation-changes-source" if i < len(objs) - 1 or not after.startswith("v") else "state-derivation-result"
+                    ctx.witness(key, f"after `{after}` the {tag[i]} v{i} does not read as its own history says "
+                                     "(a call documented to return a new object changed one of its arguments, or built the wrong result)",
+                                {"calls": log[:]}, {"object": f"v{i}", "kind": tag[i], "got": str(got)[:400], "want": str(exp[i])[:400]})
+                    return False
+            return True
+
+        def new_circuit():
+            fam = rng.choice(["qc", "iqc", "pqc", "ipqc", "lqc", "ilqc", "bqc", "cc", "cc", "cp", "cl"])
+            if fam in ("cc", "cp", "cl") and compile_circuit is None:
+                fam = "qc"
+            base_f = {"qc": "qc", "iqc": "qc", "cc": "qc", "pqc": "pqc", "ipqc": "pqc", "bqc": "pqc", "cp": "pqc", "lqc": "lqc", "ilqc": "lqc", "cl": "lqc"}[fam]
+            c = {"qc": qc.QuantumCircuit, "pqc": qc.ParametricQuantumCircuit, "lqc": qc.LinearMappedParametricQuantumCircuit}[base_f](n)
+            gs, ds = lit(n)
+            c.extend(gs)
+            if base_f == "pqc":
+                q = rng.randrange(n)
+                c.add_ParametricRY_gate(q); ds.append(["RY", [q], "unbound"])
+            if base_f == "lqc":
+                x = c.add_parameter("x")
+                q = rng.randrange(n)
+                c.add_ParametricRX_gate(q, {x: 2.0}); ds.append(["RX", [q], "unbound"])
+            log.append(f"{base_f}({n}) with gates {ds}")
+            b = put(c, {"n": n, "gates": list(ds)}, base_f, "")
+            fresh_mut.add(b)
+            if fam in ("iqc", "ipqc", "ilqc"):
+                log.append(f"v{b}.freeze()")
+                return put(real(lambda: c.freeze()), {"n": n, "gates": list(ds)}, fam, "")
+            if fam == "bqc":
+                log.append(f"v{b}.bind_parameters([3.0])")
+                return put(real(lambda: c.bind_parameters([3.0])), {"n": n, "gates": [d if d[2] != "unbound" else [d[0], d[1], [3.0]] for d in ds]}, "bqc", "")
+            if fam == "cc":
+                log.append(f"compile_circuit(v{b})")
+                return put(real(lambda: compile_circuit(c)), {"n": n, "gates": list(ds)}, "compiled circuit", "")
+            if fam in ("cp", "cl"):
+                log.append(f"compile_parametric_circuit(v{b})")
+                return put(real(lambda: compile_parametric_circuit(c)), {"n": n, "gates": list(ds)}, "compiled parametric circuit", "")
+            return b
+
+        def is_par(i):
+            return any(d[2] == "unbound" for d in exp[i]["gates"]) or tag[i] in ("pqc", "ipqc", "lqc", "ilqc", "compiled parametric circuit", "ps", "psv")
+
+        def circuits():
+            return [i for i, t_ in enumerate(tag) if not t_.startswith("state:")]
+
+        def states():
+            return [i for i, t_ in enumerate(tag) if t_.startswith("state:")]
+
+        def vec():
+            v = np.zeros(2 ** n, dtype=complex)
+            v[rng.randrange(2 ** n)] = 1
+            return v
+
+        def state_kind(o):
+            return "state:" + type(o).__name__
+
+        try:
+            new_circuit()
+            for _step in range(rng.randint(4, 10)):
+                r = rng.random()
+                cs, ss = circuits(), states()
+                if r < 0.12 or not cs:
+                    new_circuit()
+                elif r < 0.34 or not ss:
+                    # a state from a circuit, through a constructor or through quantum_state
+                    i = rng.choice(cs)
+                    c, par = objs[i], is_par(i)
+                    how = rng.choice(["ctor", "ctor-vector", "helper", "helper-bits", "helper-vector"])
+                    want = {"n": n, "gates": list(exp[i]["gates"])}
+                    if how == "ctor":
+                        cls = st.ParametricCircuitQuantumState if par else st.GeneralCircuitQuantumState
+                        log.append(f"{cls.__name__}({n}, v{i})")
+                        o = real(lambda: cls(n, c))
+                    elif how == "ctor-vector":
+                        cls = st.ParametricQuantumStateVector if par else st.QuantumStateVector
+                        v = vec()
+                        want["vector"] = [complex(x) for x in v]
+                        log.append(f"{cls.__name__}({n}, basis vector {int(np.argmax(np.abs(v)))}, v{i})")
+                        # (the caller's array is not overwritten afterwards: np.asarray keeps a complex128 array as it is, so the
+                        #  state shares it - the property speaks about circuits, the vector is not judged)
+                        o = real(lambda: cls(n, c, v) if par else cls(n, v, c))
+                    elif how == "helper":
+                        log.append(f"quantum_state({n}, circuit=v{i})")
+                        o = real(lambda: quantum_state(n, circuit=c))
+                    elif how == "helper-bits":
+                        b = rng.randrange(2 ** n)
+                        want["gates"] = [["X", [q], []] for q in range(n) if (b >> q) & 1] + want["gates"]
+                        log.append(f"quantum_state({n}, bits={b}, circuit=v{i})")
+                        o = real(lambda: quantum_state(n, bits=b, circuit=c))
+                    else:
+                        v = vec()
+                        want["vector"] = [complex(x) for x in v]
+                        log.append(f"quantum_state({n}, vector=basis {int(np.argmax(np.abs(v)))}, circuit=v{i})")
+                        o = real(lambda: quantum_state(n, vector=v, circuit=c))
+                    put(o, want, state_kind(o), "")
+                elif r < 0.42:
+                    # mutate a circuit that came from a plain constructor: nothing derived from it may follow.
+                    # (a compiled circuit is itself such a mutable object - known finding, replayed separately)
+                    cand = [i for i in cs if i in fresh_mut]
+                    if not cand:
+                        continue
+                    i = rng.choice(cand)
+                    q = rng.randrange(n)
+                    log.append(f"v{i}.add_S_gate({q})")
+                    real(lambda: objs[i].add_S_gate(q))
+                    exp[i]["gates"].append(["S", [q], []])
+                else:
+                    j = rng.choice(ss)
+                    s_, par = objs[j], is_par(j)
+                    reps = 2 if rng.random() < 0.4 else 1
+                    x = rng.random()
+                    for _rep in range(reps):
+                        want = {k_: (list(v_) if isinstance(v_, list) else v_) for k_, v_ in exp[j].items()}
+                        if x < 0.25 and hasattr(s_, "with_gates_applied"):
+                            gs, ds = lit(n)
+                            form = rng.choice(["list", "tuple", "circuit"])
+                            arg = gs if form == "list" else tuple(gs) if form == "tuple" else (lambda c_: (c_.extend(gs), c_.freeze())[1])(qc.QuantumCircuit(n))
+                            want["gates"] = want["gates"] + ds
+                            log.append(f"v{j}.with_gates_applied({form} {ds})")
+                            o = real(lambda: s_.with_gates_applied(arg))
+                        elif x < 0.7:
+                            i = rng.choice(cs)
+                            want["gates"] = want["gates"] + list(exp[i]["gates"])
+                            log.append(f"apply_circuit(v{i}, v{j})")
+                            with quiet_stderr():  # (a Rust borrow panic prints a backtrace)
+                                o = real(lambda: apply_circuit(objs[i], s_))
+                        elif x < 0.8 and par and hasattr(s_, "bind_parameters"):
+                            cnt = real(lambda: circuit_of(s_).parameter_count)
+                            vals = [float(rng.randint(-3, 3)) for _ in range(cnt)]
+                            if isinstance(circuit_of(s_), qc.ImmutableLinearMappedParametricQuantumCircuit):
+                                # (the bound angle of a linear-mapped gate is a function of the values: the model-judged histories cover it)
+                                break
+                            k_ = iter(vals)
+                            want["gates"] = [d if d[2] != "unbound" else [d[0], d[1], [next(k_)]] for d in want["gates"]]
+                            log.append(f"v{j}.bind_parameters({vals})")
+                            o = real(lambda: s_.bind_parameters(vals))
+                        elif x < 0.9:
+                            c_ = circuit_of(s_)
+                            cls = (st.ParametricCircuitQuantumState if par else st.GeneralCircuitQuantumState)
+                            want.pop("vector", None)
+                            log.append(f"{cls.__name__}({n}, <circuit of v{j}>)")
+                            o = real(lambda: cls(n, c_))
+                        else:
+                            c_ = circuit_of(s_)
+                            want.pop("vector", None)
+                            log.append(f"quantum_state({n}, circuit=<circuit of v{j}>)")
+                            o = real(lambda: quantum_state(n, circuit=c_))
+                        put(o, want, state_kind(o), "")
+                        if not check_all(log[-1]):
+                            raise StopIteration
+                    continue
+                if not check_all(log[-1]):
+                    raise StopIteration
+        except RealErr as e:
+            ctx.witness("state-derivation-result", "a well-formed construction / derivation of a state raised", {"calls": log[:]}, {"error": str(e)})
+        except StopIteration:
+            pass
+        ctx.case(("states", tuple(log)), nontrivial=len(objs) > 2, sample={"state_calls": log[:5]})
+        ctx.count("states", "histories")
+        for t_ in tag:
+            ctx.count("states", t_)
+
+    # the separate defect the compiled circuits have on the unchanged tree (replayed; judged only once it is a listed finding)
+    if compile_circuit is not None:
+        c = qc.QuantumCircuit(2)
+        c.add_H_gate(0)
+        try:
+            cc = compile_circuit(c)
+            s0 = st.GeneralCircuitQuantumState(2, cc)
+            cc.add_X_gate(1)
+            follows = [g.name for g in s0.circuit.gates] != ["H"]
+            stale = cc.qulacs_circuit.get_gate_count() != len(cc.gates)
+        except Exception:  # noqa: BLE001
+            follows = stale = False
+        ctx.extra["compiled_circuit_is_mutable_and_state_follows_it"] = follows
+        if follows and compiled_known:
+            ctx.witness(KEY_COMPILED, "compile_circuit(c) is documented as an ImmutableQuantumCircuit but is a mutable QuantumCircuit whose freeze() returns "
+                        "itself: a state built from it follows later add_*_gate calls on it" + (" (and its cached qulacs circuit goes stale)" if stale else ""),
+                        {"calls": ["c = QuantumCircuit(2); c.add_H_gate(0)", "cc = compile_circuit(c)", "s0 = GeneralCircuitQuantumState(2, cc)", "cc.add_X_gate(1)"]},
+                        {"s0.circuit.gates": [g.name for g in s0.circuit.gates], "want": ["H"]})
+        elif follows:
+            ctx.extra.setdefault("observations_not_judged", []).append(
+                "GENUINE DEFECT awaiting a known_findings line (key " + KEY_COMPILED + "): cc = compile_circuit(c); s0 = GeneralCircuitQuantumState(2, cc); "
+                "cc.add_X_gate(1) -> s0.circuit.gates == [H, X]: the compiled circuit is a mutable QuantumCircuit whose freeze() returns self")
+
+
+# ---------------------------------------------------------------------------------------------
 # exhaustive small scopes (thorough tier): every history of a given length over a small alphabet
 # ---------------------------------------------------------------------------------------------
 def small_alphabet(R: "Interp", family: str):
@@ -2351,6 +2630,7 @@ def run(ctx: Ctx, replay=None) -> int:
             measure_histories(ctx, ctx.n(300, 3000))
             state_ctor_checks(ctx)
             rejected_call_checks(ctx)
+            state_derivation_histories(ctx, ctx.n(300, 4000))
             if not ctx.quick():
                 exhaustive(ctx, depth=4, limit=10 ** 6)  # complete: new + 3 operations + observation of every handle
                 exhaustive(ctx, depth=5, limit=10 ** 6, families=("np",))  # the family with the findings: new + 4 operations
